@@ -59,6 +59,7 @@ func main() {
 	shards := flag.Int("shards", 16, "number of trace files to spread histories over")
 	scale := flag.Float64("scale", 1.0, "budget multiplier")
 	scenario := flag.String("scenario", "", "re-execute the calls of a recorded history (ndjson) instead of generating")
+	flag.StringVar(&corpusFiles, "corpus", "", "carry-coverage corpora (bin/carrycov.py), comma-separated")
 	flag.StringVar(&focus, "focus", "", "C16 generator only: restrict the concurrent call mix to the actions of this property")
 	flag.Parse()
 	if *out == "" || *prop == "" {
